@@ -19,9 +19,11 @@
 (***************************************************************************)
 EXTENDS Props, Json, IOUtils, TLCExt
 
-VARIABLES l, view, obs, accSnap
+VARIABLES l, view, obs, accSnap,
+          touring,   \* TRUE between a tour's `mark` and the end of the trace: every Deliver starts from the marked state
+          base       \* tour: first observed outcome of each transaction fired at the marked state
 
-tvars == <<allvars, l, view, obs, accSnap>>
+tvars == <<allvars, l, view, obs, accSnap, touring, base>>
 
 Log == ndJsonDeserialize(IOEnv.TRACE_FILE)
 
@@ -30,7 +32,7 @@ R(seq) == {seq[i] : i \in DOMAIN seq}
 -----------------------------------------------------------------------------
 (* JSON -> specification values *)
 
-NDoc(j) == [id |-> j.id, vms |-> R(j.vms), auth |-> R(j.auth), asrt |-> R(j.asrt)]
+NDoc(j) == [id |-> j.id, vms |-> R(j.vms), auth |-> R(j.auth), asrt |-> R(j.asrt), ex |-> j.ex]
 
 NMsg(m) ==
     IF m.type \in {"did.Create", "did.Update"}
@@ -192,7 +194,20 @@ TraceInit ==
     /\ bal = [a \in Tracked |-> [d \in Denoms |-> 0]] /\ vest = {} /\ exists = {} /\ supply = [d \in Denoms |-> 0] /\ rest = [d \in Denoms |-> 0]
     /\ grants = {} /\ act = [name |-> "none"]
     /\ acked = {} /\ accepted = {} /\ delivered = << >>
-    /\ view = << >> /\ obs = << >> /\ accSnap = {}
+    /\ view = << >> /\ obs = << >> /\ accSnap = {} /\ touring = FALSE /\ base = << >>
+
+\* C15 (atomicity, differential form): in a tour every transaction is fired at the same marked state; transactions that fail are not undone
+\* by a restart, so whatever they leave behind - in the stores or in process memory - is still there when the next one runs.  The outcome of a
+\* transaction must therefore not depend on which failed transactions were delivered before it: same result, same code, same resulting state
+\* as the first time it was fired at this state.  (Independent of the specification's own predictions.)
+Outcome2(a) == [result |-> a.result, failIdx |-> a.failIdx, code |-> a.code, offs |-> a.offs, post |-> custom']
+TourCheck ==
+    IF touring /\ act'.name = "Deliver"
+    THEN IF act'.tx \in DOMAIN base
+         THEN /\ base' = base
+              /\ Chk("C15", base[act'.tx] = Outcome2(act'))
+         ELSE base' = [x \in DOMAIN base \cup {act'.tx} |-> IF x = act'.tx THEN Outcome2(act') ELSE base[x]]
+    ELSE base' = base
 
 TraceNext ==
     /\ l <= Len(Log)
@@ -201,19 +216,20 @@ TraceNext ==
        /\ Observe(rec)
        /\ acked' = R(rec.acked)
        /\ CASE rec.ev = "init" ->          \* a new trace starts
-                 /\ accepted' = {} /\ accSnap' = {} /\ delivered' = << >>
+                 /\ accepted' = {} /\ accSnap' = {} /\ delivered' = << >> /\ touring' = FALSE /\ base' = << >>
                  /\ StateProps
                  /\ Drift("junk", obs'.junk = 0)
             [] rec.ev = "mark" ->          \* tour: the state every following transaction is fired at
-                 /\ accepted' = accepted /\ accSnap' = accepted /\ delivered' = delivered
+                 /\ accepted' = accepted /\ accSnap' = accepted /\ delivered' = delivered /\ touring' = TRUE /\ base' = << >>
                  /\ StateProps
             [] rec.ev = "reset" ->         \* tour: the harness went back to the marked (committed) state
-                 /\ accepted' = accSnap /\ accSnap' = accSnap /\ delivered' = delivered
+                 /\ accepted' = accSnap /\ accSnap' = accSnap /\ delivered' = delivered /\ touring' = touring /\ base' = base
                  /\ StateProps
             [] OTHER ->
                  /\ accepted' = accepted \cup NewAccepted(act')
                  /\ delivered' = delivered \o NewDelivered(act')
-                 /\ accSnap' = accSnap
+                 /\ accSnap' = accSnap /\ touring' = touring
+                 /\ TourCheck
                  /\ StepProps
                  /\ StateProps
                  /\ Conformance
